@@ -34,10 +34,12 @@ class Model:
             self.dumpers[t] = (fn, ex.run(fn))
         self.loaders = {}      # tag byte -> (Func, term)   (the last registration wins, as in Python)
         self.loader_dups = []
+        self.n_load_funcs = 0
         for key, fn in B.registry_functions(ctx, "_load_registry"):
             t = ctx.fold(key, mod)
             if not isinstance(t, bytes):
                 raise AnalysisError("load registry key `%s` does not fold to bytes" % A.src(key))
+            self.n_load_funcs += 1
             if t in self.loaders:
                 self.loader_dups.append((t, self.loaders[t][0], fn))
             self.loaders[t] = (fn, B.simplify(B.LoadExec(ctx).run(fn)))
@@ -223,7 +225,7 @@ def run(ctx, rep, model=None):
     mod = m.mod
     rep.analysed(module=mod)
     rep.floor("R04.3", "registered dumpers", len(m.dumpers), 12)
-    rep.floor("R04.3", "registered loaders", len(m.loaders), 26)
+    rep.floor("R04.3", "registered loaders", m.n_load_funcs, 26)
     for t, (fn, paths) in m.dumpers.items():
         rep.analysed(fn)
     for tag, (fn, term) in m.loaders.items():
